@@ -1246,6 +1246,26 @@ class Interp:
                     return r
                 except (TypeError, ValueError) as e:
                     raise PathRaise(type(e).__name__, node)
+            if b in ('map', 'filter') and len(args) == 2:
+                f, seq = args
+                if seq is TOP:
+                    return TOP
+                items = self.iterate(seq, node)
+                out = []
+                for x in items:
+                    if isinstance(f, Ext) and f.name.startswith('builtins.') and f.name[9:] in _SAFE_BUILTINS:
+                        r = self.call_ext(f, [x], {}, node, env)
+                    else:
+                        r = self.call(f, [x], {}, node, env)
+                    if b == 'map':
+                        out.append(r)
+                    else:
+                        t = truth(r)
+                        if t is None:
+                            return TOP
+                        if t:
+                            out.append(x)
+                return out
             if b == 'isinstance':
                 return self._isinstance(args, node)
             if b == 'print':
